@@ -74,7 +74,7 @@ pub fn judge(cfg: &RunCfg, o: &Outcome, liveness: bool, family: &str) -> Judged 
                 Workload::Echo(_) | Workload::TwoStreams(_) => o.client.iter().all(|r| r.contains("intact:w-ok")) && !o.client.is_empty(),
                 Workload::UniEachWay(_) => o.client.iter().any(|r| r == "uni-send:ok") && o.client.iter().any(|r| r.contains("intact")),
                 Workload::Spaced => o.client.iter().filter(|r| r.contains("intact:w-ok")).count() == 3,
-                Workload::Datagrams(_) | Workload::Idle => true,
+                Workload::Datagrams(_) | Workload::Idle | Workload::PendingOps => true,
             };
             if !ok {
                 sigs.push(("liveness/data-not-delivered".into(), format!("bounded faults, yet the transfer did not complete: {all}")));
@@ -581,6 +581,70 @@ pub fn c17c(args: &Args) -> i32 {
                 exhaustive: true,
                 rule: "at every (quick: every second) datagram index of the fault-free run × {client closes, server closes, both in the same instant}: every application future completes within 30 virtual seconds, nobody panics, nothing corrupt is read; distinct = outcome classes".into(),
                 samples: vec![json!({"close": format!("{:?}", jobs.first().and_then(|c| c.close)), "client": outs.first().map(|o| o.client.clone())})],
+                extra,
+                ..Default::default()
+            },
+        );
+    }
+    // (1b) one operation of every kind parked on both sides, then a close
+    {
+        let cfg0 = RunCfg::new(Workload::PendingOps);
+        // the fault-free run never ends by itself: find the length of the handshake phase from
+        // a run that is closed late
+        let mut probe = cfg0.clone();
+        probe.close = Some(CloseEvent { at: 10_000, who: Closer::Client });
+        probe.horizon_s = 5;
+        let n = run_once(&probe, &[], Tail::None).wire.len();
+        let mut jobs = Vec::new();
+        for at in (0..=n + 1).step_by(if args.thorough { 1 } else { 2 }) {
+            for who in [Closer::Client, Closer::Server, Closer::Both] {
+                let mut c = cfg0.clone();
+                c.close = Some(CloseEvent { at, who });
+                c.horizon_s = 30;
+                jobs.push(c);
+            }
+        }
+        let outs = par_map(&jobs, |c| run_once(c, &[], Tail::None));
+        let mut outcomes: BTreeMap<String, u64> = BTreeMap::new();
+        for (c, o) in jobs.iter().zip(&outs) {
+            let all = format!("{:?} {:?}", o.client, o.server);
+            *outcomes.entry(format!("{}|{}", o.finished, summarize(&all))).or_default() += 1;
+            let rp = json!({"sub": "close/pending-ops", "config": c, "prefix": [], "tail": "None"});
+            for p in &o.panics {
+                report.violation(&format!("panic/{}", class_of(p)), &format!("close {:?}: {p}", c.close), rp.clone());
+            }
+            // the close was injected after the handshake iff somebody logged a pending:* line or
+            // the connection existed; judge the parked operations of a side only if that side got
+            // as far as parking them (its terminated() line is there or the task hangs)
+            for (side, lines, kinds) in [
+                ("client", &o.client, &["accept-bi", "accept-uni", "datagram-recv", "stream-read", "terminated"][..]),
+                ("server", &o.server, &["accept-bi", "accept-uni", "datagram-recv", "terminated"][..]),
+            ] {
+                let parked = lines.iter().any(|l| l.starts_with("pending:")) || (side == "client" && !o.finished);
+                if !parked {
+                    continue;
+                }
+                for k in kinds {
+                    if !lines.iter().any(|l| l.starts_with(&format!("pending:{k}:"))) {
+                        report.violation(
+                            &format!("close/pending-operation-hangs/{k}"),
+                            &format!("close {:?}: the {side}'s parked {k} had not ended 30 virtual seconds after the close: {all}", c.close),
+                            rp.clone(),
+                        );
+                    }
+                }
+            }
+        }
+        let mut extra = serde_json::Map::new();
+        extra.insert("outcomes".into(), json!(outcomes));
+        report.sub(
+            "close/pending-ops",
+            Coverage {
+                evaluations: jobs.len() as u64,
+                distinct_nontrivial: outcomes.len() as u64,
+                exhaustive: true,
+                rule: "both sides park accept_bi, accept_uni, a datagram receive, terminated() (client also a read on an open stream whose peer stays silent); close injected at every (quick: every second) datagram index × {client, server, both}: every parked operation of a side that got as far as parking them ends within 30 virtual seconds".into(),
+                samples: vec![json!({"client": outs.last().map(|o| o.client.clone()), "server": outs.last().map(|o| o.server.clone())})],
                 extra,
                 ..Default::default()
             },
